@@ -7,6 +7,7 @@ props=${*:-"C14 C15 C16 C19 C20"}
 for d in seeded/*/; do
   id=$(basename "$d"); prop=$(/venv/bin/python -c "import json;print(json.load(open('$d/meta.json'))['property'])")
   case " $props " in *" $prop "*) ;; *) continue;; esac
+  if [ -n "$SKIP_IDS" ]; then case " $SKIP_IDS " in *" $id "*) continue;; esac; fi
   res=$(tools/try_mutant.py "$d/patch.diff" "$prop" 2>&1 | /venv/bin/python -c "
 import json,sys
 try:
